@@ -17,6 +17,10 @@ Proof. exact history_current. Qed.
 Theorem C09_sound : forall p r sid tid, allowed p r sid tid = true -> grants p r sid tid = true.
 Proof. exact allowed_sound. Qed.
 
+(* a request is performed only if every rule on its path allows it, hence only if the hierarchy grants it *)
+Theorem C09_request_sound : forall p r sid tid, op_allowed p r sid tid = true -> grants p r sid tid = true.
+Proof. exact op_allowed_sound. Qed.
+
 Theorem C09_no_record_no_access : forall r sid tid, allowed None r sid tid = false.
 Proof. reflexivity. Qed.
 
@@ -39,6 +43,7 @@ Proof. exact history_root. Qed.
 
 Print Assumptions C09_update_visible.
 Print Assumptions C09_sound.
+Print Assumptions C09_request_sound.
 Print Assumptions C09_no_record_no_access.
 Print Assumptions C09_local.
 Print Assumptions C09_local_restrict.
